@@ -4,14 +4,19 @@ import json
 def run(ctx):
     # design-level LLL machine run to completion from every small basis: lattice preserved, potential decreases, terminates, result reduced
     ctx.tlc_mc("MC_LLL", "MC_LLL.thorough.cfg" if ctx.thorough else "MC_LLL.cfg", workers=8, timeout=3000, coverage=False)
-    # A: TLC enumerates every small integer matrix (2x2 entries -3..3, 2x3 / 3x2 entries -1..1; thorough: 2x3 entries -2..2, 3x3 entries -1..1)
-    cfgs = ["2x2v3", "2x3v1", "3x2v1"] + (["2x3v2", "3x3v1"] if ctx.thorough else [])
+    # A: TLC enumerates every small integer matrix (2x2 entries -3..3, 2x3 / 3x2 / 3x3 entries -1..1; thorough: also 2x3 entries -2..2)
+    # (quick: a seed-dependent 1/12 sample of the 19683 3x3 matrices - three rows are the least that make the update of the
+    # Gram data of a *later* row at a swap observable, and small sparse matrices have the exact orthogonalities random ones lack)
+    cfgs = ["2x2v3", "2x3v1", "3x2v1", "3x3v1"] + (["2x3v2"] if ctx.thorough else [])
     path = ctx.path("gen_all.ndjson")
     nen = 0
     with open(path, "w") as f:
         for c in cfgs:
             pth, objs = ctx.tlc_gen("Gen_SmallMats", "Gen_SmallMats.%s.cfg" % c, workers=1, out_name="gen_%s.ndjson" % c)
-            f.write(open(pth).read()); nen += len(objs)
+            lines = open(pth).read().splitlines()
+            if c == "3x3v1" and not ctx.thorough:
+                lines = [l for i, l in enumerate(lines) if i % 12 == ctx.seed % 12]
+            f.write("".join(l + "\n" for l in lines)); nen += len(lines)
     trace = ctx.path("trace.ndjson")
     summ, _, _ = ctx.yv("c10", "record", "--seed", ctx.seed, "--tier", ctx.tier, "--in", path, "--out", trace, timeout=3000)
     rec = summ["record"]
